@@ -241,6 +241,10 @@ class WritableVersion(dns.zone.WritableVersion):
             node.flags |= NodeFlags.ORIGIN
         elif self.delegations.is_glue(name):
             node.flags |= NodeFlags.GLUE
+        elif name in self.delegations:
+            # The copy starts without flags; a change to some other rdataset at
+            # a delegation point must not lose the delegation.
+            node.flags |= NodeFlags.DELEGATION
         return (node, name)
 
     def update_glue_flag(self, name: dns.name.Name, is_glue: bool) -> None:
